@@ -457,13 +457,22 @@ func (w *c09WS) open() *Server {
 		zzverif.WriteFile(w.path(i), f.disk)
 	}
 	s := NewServer()
-	s.SetClient(&zzClient{})
+	cl := &zzClient{}
+	s.SetClient(cl)
+	// natively the goroutine a notification spawns is muted; sync() runs the analysis instead
+	notify := func(f func()) {
+		if zzverif.Engine() {
+			f()
+		} else {
+			zzMuted(s, cl, f)
+		}
+	}
 	ip := &protocol.InitializeParams{}
 	if w.ws {
 		ip.RootURI = protocol.DocumentURI("file://" + zzverif.Root())
 	}
 	_, _ = s.Initialize(ctx, ip)
-	_ = s.Initialized(ctx, &protocol.InitializedParams{})
+	notify(func() { _ = s.Initialized(ctx, &protocol.InitializedParams{}) })
 	sync := func(i int, text string) {
 		if zzverif.Engine() {
 			for zzverif.PendingTasks() > 0 {
@@ -476,19 +485,27 @@ func (w *c09WS) open() *Server {
 	if w.edit >= 0 {
 		f := w.files[w.edit]
 		if w.viaOpen {
-			_ = s.DidOpen(ctx, &protocol.DidOpenTextDocumentParams{TextDocument: protocol.TextDocumentItem{URI: w.uri(w.edit), Text: f.cur, Version: 1}})
+			notify(func() {
+				_ = s.DidOpen(ctx, &protocol.DidOpenTextDocumentParams{TextDocument: protocol.TextDocumentItem{URI: w.uri(w.edit), Text: f.cur, Version: 1}})
+			})
 			sync(w.edit, f.cur)
 		} else {
-			_ = s.DidOpen(ctx, &protocol.DidOpenTextDocumentParams{TextDocument: protocol.TextDocumentItem{URI: w.uri(w.edit), Text: f.disk, Version: 1}})
+			notify(func() {
+				_ = s.DidOpen(ctx, &protocol.DidOpenTextDocumentParams{TextDocument: protocol.TextDocumentItem{URI: w.uri(w.edit), Text: f.disk, Version: 1}})
+			})
 			sync(w.edit, f.disk)
-			_ = s.DidChange(ctx, &protocol.DidChangeTextDocumentParams{
-				TextDocument:   protocol.VersionedTextDocumentIdentifier{TextDocumentIdentifier: protocol.TextDocumentIdentifier{URI: w.uri(w.edit)}, Version: 2},
-				ContentChanges: []protocol.TextDocumentContentChangeEvent{{Text: f.cur}}})
+			notify(func() {
+				_ = s.DidChange(ctx, &protocol.DidChangeTextDocumentParams{
+					TextDocument:   protocol.VersionedTextDocumentIdentifier{TextDocumentIdentifier: protocol.TextDocumentIdentifier{URI: w.uri(w.edit)}, Version: 2},
+					ContentChanges: []protocol.TextDocumentContentChangeEvent{{Text: f.cur}}})
+			})
 			sync(w.edit, f.cur)
 		}
 	}
 	if w.req != w.edit {
-		_ = s.DidOpen(ctx, &protocol.DidOpenTextDocumentParams{TextDocument: protocol.TextDocumentItem{URI: w.uri(w.req), Text: w.files[w.req].cur, Version: 1}})
+		notify(func() {
+			_ = s.DidOpen(ctx, &protocol.DidOpenTextDocumentParams{TextDocument: protocol.TextDocumentItem{URI: w.uri(w.req), Text: w.files[w.req].cur, Version: 1}})
+		})
 		sync(w.req, w.files[w.req].cur)
 	}
 	return s
